@@ -1274,6 +1274,151 @@ func runSchedule(r *emit.Rng, limit, threads, steps int, withPanics bool, tmode 
 	return res
 }
 
+// a ResponseWriter whose 503 header write parks until released (a slow client of a rejected request)
+type parkWriter struct {
+	hdr     http.Header
+	code    int
+	body    bytes.Buffer
+	parked  chan int
+	release chan struct{}
+}
+
+func (p *parkWriter) Header() http.Header { return p.hdr }
+func (p *parkWriter) WriteHeader(c int) {
+	if p.code == 0 {
+		p.code = c
+	}
+	if c == 503 {
+		p.parked <- c
+		<-p.release
+	}
+}
+func (p *parkWriter) Write(b []byte) (int, error) {
+	if p.code == 0 {
+		p.code = 200
+	}
+	return p.body.Write(b)
+}
+
+// directed: fill the limit, reject B and keep it parked inside its 503 write, let one gather finish, then send C:
+// fewer than [limit] gathers run, so C must be served. Emitted as an ordinary schedule case.
+func runParkedRejection(r *emit.Rng, limit int) schedResult {
+	setZstd(1)
+	res := schedResult{}
+	fam := genFamily(r, 0)
+	var want bytes.Buffer
+	_ = expfmt.NewEncoder(&want, expfmt.NewFormat(expfmt.TypeTextPlain)).Encode(fam)
+	g := &scriptG{fams: []*dto.MetricFamily{fam}, block: true, entered: make(chan int, 64)}
+	h := promhttp.HandlerForTransactional(transG{g}, promhttp.HandlerOpts{MaxRequestsInFlight: limit})
+	watchdog := func() <-chan time.Time { return time.After(5 * time.Second) }
+	var evs, outs []string
+	n503 := 0
+	type run struct {
+		call *blockedCall
+		rec  *httptest.ResponseRecorder
+		done chan struct{}
+	}
+	startRec := func(t int) (*run, int) { // 1 let in, 2 answered without gathering, 9 watchdog
+		evs = append(evs, emit.C(0, emit.I(t)))
+		x := &run{call: &blockedCall{release: make(chan struct{})}, rec: httptest.NewRecorder(), done: make(chan struct{})}
+		g.mu.Lock()
+		g.pending = x.call
+		g.mu.Unlock()
+		go func() {
+			defer close(x.done)
+			defer func() { recover() }()
+			h.ServeHTTP(x.rec, httptest.NewRequest("GET", "/metrics", nil))
+		}()
+		select {
+		case <-g.entered:
+			return x, 1
+		case <-x.done:
+			g.mu.Lock()
+			g.pending = nil
+			g.mu.Unlock()
+			return x, 2
+		case <-watchdog():
+			return x, 9
+		}
+	}
+	finish := func(t int, x *run) {
+		evs = append(evs, emit.C(1, emit.I(t), emit.B(false)))
+		outs = append(outs, "0")
+		close(x.call.release)
+		select {
+		case <-x.done:
+		case <-watchdog():
+			res.fail = "a released request did not finish"
+		}
+	}
+	var running []*run
+	for t := 0; t < limit; t++ {
+		x, o := startRec(t)
+		outs = append(outs, emit.I(o))
+		if o != 1 {
+			res.fail = "could not fill the limit"
+		}
+		running = append(running, x)
+	}
+	// B: rejected, parked in its 503 write
+	bw := &parkWriter{hdr: http.Header{}, parked: make(chan int, 1), release: make(chan struct{})}
+	bDone := make(chan struct{})
+	evs = append(evs, emit.C(0, emit.I(limit)))
+	go func() {
+		defer close(bDone)
+		defer func() { recover() }()
+		h.ServeHTTP(bw, httptest.NewRequest("GET", "/metrics", nil))
+	}()
+	select {
+	case <-bw.parked:
+		outs = append(outs, "2")
+		n503++
+	case <-g.entered:
+		outs = append(outs, "1")
+		res.fail = "the excess request was let in"
+	case <-bDone:
+		outs = append(outs, "9")
+		res.fail = "the excess request ended without a 503"
+	case <-watchdog():
+		outs = append(outs, "9")
+		res.fail = "the excess request hangs"
+	}
+	// one gather finishes completely
+	if res.fail == "" {
+		finish(0, running[0])
+		// C arrives while B is still parked: limit-1 gathers run
+		x, o := startRec(limit + 1)
+		outs = append(outs, emit.I(o))
+		switch o {
+		case 1:
+			finish(limit+1, x)
+			if x.rec.Code != 200 || !bytes.Equal(x.rec.Body.Bytes(), want.Bytes()) {
+				res.fail = "request C was let in but not served what was gathered"
+			}
+		case 2:
+			n503++
+		default:
+			res.fail = "request C hangs"
+		}
+		for t := 1; t < limit; t++ {
+			finish(t, running[t])
+		}
+	}
+	close(bw.release)
+	select {
+	case <-bDone:
+		if res.fail == "" && (bw.code != 503 || bw.body.String() != fmt.Sprintf("Limit of concurrent requests reached (%d), try again later.\n", limit)) {
+			res.fail = "request B did not get the limit 503"
+		}
+	case <-watchdog():
+		res.fail = "request B hangs after release"
+	}
+	res.term = emit.C(2, emit.I(limit), emit.L(evs), emit.L(outs), emit.I(int(atomic.LoadInt32(&g.peak))),
+		emit.I(int(atomic.LoadInt32(&g.gathers))), emit.I(int(atomic.LoadInt32(&g.dones))), emit.I(n503))
+	res.tags = []string{fmt.Sprintf("limit:%d", limit), "parked-rejection"}
+	return res
+}
+
 func runStress(r *emit.Rng, limit, reqs int) (string, []string) {
 	setZstd(1)
 	g := &scriptG{fams: []*dto.MetricFamily{genFamily(r, 0), genFamily(r, 1)}, yield: 1 + r.Intn(20)}
@@ -1423,6 +1568,13 @@ func runC11(c *cli.Ctx) error {
 			w.Tag("inconclusive-timing", 1)
 			continue
 		}
+		if res.fail != "" {
+			direct = append(direct, map[string]interface{}{"index": w.Len(), "what": res.fail})
+		}
+		w.Add(res.term, true, res.tags...)
+	}
+	for i := 0; i < 6; i++ { // a rejected request parked in its 503 write must not occupy a slot
+		res := runParkedRejection(r, 1+i%3)
 		if res.fail != "" {
 			direct = append(direct, map[string]interface{}{"index": w.Len(), "what": res.fail})
 		}
